@@ -6,7 +6,7 @@ PROP_FILES = ["Properties_C17.v"]
 DUMP_CLASSES = ("defs", "udata", "fsr", "anno", "utc")
 
 
-def gen_writer(rng, tier, allow_omit=True):
+def gen_writer(rng, tier, allow_omit=True, deep=False):
     """a writer program in the style of C05: several sources/signals/types, annotations, UTC, user data"""
     ops = ["wopen"]
     for s in range(rng.randrange(1, 3)):
@@ -26,6 +26,10 @@ def gen_writer(rng, tier, allow_omit=True):
         a_spd = sdf * epd
         first = rng.choice([0, 0, 5, -3, 100000])
         total = rng.choice([0, 1, sdf, a_spd, 3 * a_spd + 1, sdf * eps + 3, rng.randrange(1, 4000 if tier == "quick" else 20000)])
+        if deep and rng.random() < 0.75:
+            # several level-1 chunks and (often) a level-2 chunk on disk: 1..3 summary levels
+            total = sdf * eps * rng.choice([2, 3, 5, sumdf, sumdf + 2]) + rng.choice([0, 1, sdf, a_spd + 3])
+            total = min(total, 9000 if tier == "quick" else 60000)
         pos = 0
         seed = rng.randrange(1, 10**6)
         calls = []
